@@ -489,6 +489,13 @@ typedef struct _rfbClient {
 
         /* flag to indicate wheter updateRect is managed by lib or user */
         rfbBool isUpdateRectManagedByLib;
+
+#ifdef LIBVNCSERVER_HAVE_LIBZ
+	/** The ZRLE encoding has a zlib stream of its own (RFB: it is not the stream of
+	    the Zlib encoding; a server may use both encodings on one connection). */
+	z_stream zrleStream;
+	rfbBool zrleStreamInited;
+#endif
 } rfbClient;
 
 /* cursor.c */
